@@ -837,6 +837,45 @@ def inline_value_helpers(f, depth=2):
         pre += _subst_names_x(h.body[:-1], mp)
         return pre, _subst_names_x(rets[0].a[0], mp)
 
+    def expand_void(c):
+        """statements of a helper called for its effects (no value returned)"""
+        if not (c.k == "call" and c.a[0].k == "name" and not c.a[2]):
+            return None
+        h = mod.funcs.get(c.a[0].a[0])
+        if h is None or h is f or len(h.args) != len(c.a[1]) or not h.body:
+            return None
+        rets = [r for r in walk(h.body) if isinstance(r, X) and r.k == "return"]
+        if any(r.a and r.a[0] is not None for r in rets):
+            return None
+        body = h.body
+        if rets:
+            if len(rets) != 1 or body[-1] is not rets[0]:
+                return None
+            body = body[:-1]
+        if not all(simple(a) for a in c.a[1]):
+            return None
+        counter[0] += 1
+        k = counter[0]
+        mp = {pn: a for (pn, _), a in zip(h.args, c.a[1])}
+        assigned = set()
+        for st in walk(body):
+            if isinstance(st, X) and st.k == "assign":
+                for t in st.a[0]:
+                    for e in ([t] if t.k == "name" else t.a[0] if t.k == "tuple" else []):
+                        if e.k == "name":
+                            assigned.add(e.a[0])
+            elif isinstance(st, X) and st.k == "aug" and st.a[1].k == "name":
+                assigned.add(st.a[1].a[0])
+            elif isinstance(st, X) and st.k == "for":
+                assigned |= names_in(st.a[0])
+        if assigned & set(mp):
+            return None
+        for n_ in set(h.locals) | assigned:
+            mp[n_] = X("name", f"_h{k}_{n_}")
+        pre = [X("assign", [X("name", f"_h{k}_{n_}")], init, line=ln)
+               for n_, (t, init, ln) in h.locals.items() if init is not None]
+        return pre + _subst_names_x(body, mp)
+
     def rewrite_expr(e, pre):
         if isinstance(e, X):
             if e.k == "call":
@@ -863,6 +902,15 @@ def inline_value_helpers(f, depth=2):
             elif st.k == "if":
                 st = X("if", [(c, block(b)) for c, b in st.a[0]], block(st.a[1]),
                        line=st.line)
+            elif st.k == "expr" and st.a and isinstance(st.a[0], X) and \
+                    st.a[0].k == "call":
+                v = expand_void(st.a[0])
+                if v is not None:
+                    out.extend(v)
+                    continue
+                pre = []
+                st = rewrite_expr(st, pre)
+                out.extend(pre)
             elif st.k in ("assign", "aug", "expr", "return"):
                 pre = []
                 st = rewrite_expr(st, pre)
@@ -876,3 +924,100 @@ def inline_value_helpers(f, depth=2):
         if counter[0] == n0:
             break
     return body
+
+
+def fold_subcounters(body: list) -> list:
+    """`B = 0; ... B += c ...; A += B` with B used nowhere else is `... A += c
+    ...`: a partial count kept in a (helper's) local and added to the real
+    counter afterwards counts for that counter."""
+    uses = {}
+    for x in walk(body):
+        if isinstance(x, X) and x.k == "name":
+            uses[x.a[0]] = uses.get(x.a[0], 0) + 1
+    folds = {}
+    for st in walk(body):
+        if isinstance(st, X) and st.k == "aug" and st.a[0] == "+" and \
+                st.a[1].k == "name" and st.a[2].k == "name":
+            A, B = st.a[1].a[0], st.a[2].a[0]
+            if A == B:
+                continue
+            inits = [s for s in walk(body) if isinstance(s, X) and s.k == "assign"
+                     and len(s.a[0]) == 1 and s.a[0][0].k == "name"
+                     and s.a[0][0].a[0] == B]
+            incs = [s for s in walk(body) if isinstance(s, X) and s.k == "aug"
+                    and s.a[1].k == "name" and s.a[1].a[0] == B]
+            if len(inits) == 1 and pp(inits[0].a[1]) in ("0", "0.0") and incs and \
+                    all(s.a[0] == "+" and B not in names_in(s.a[2]) for s in incs) and \
+                    uses.get(B, 0) == 1 + len(incs) + 1:
+                folds[B] = (A, id(inits[0]), id(st))
+    if not folds:
+        return body
+    drop = {i for _, i, j in folds.values()} | {j for _, i, j in folds.values()}
+    ren = {B: X("name", A) for B, (A, _, _) in folds.items()}
+
+    def block(stmts):
+        out = []
+        for st in stmts:
+            if id(st) in drop:
+                continue
+            if st.k == "for":
+                st = X("for", st.a[0], st.a[1], block(st.a[2]), *st.a[3:], line=st.line)
+            elif st.k == "while":
+                st = X("while", st.a[0], block(st.a[1]), *st.a[2:], line=st.line)
+            elif st.k == "if":
+                st = X("if", [(c, block(b)) for c, b in st.a[0]], block(st.a[1]),
+                       line=st.line)
+            elif st.k == "aug" and st.a[1].k == "name" and st.a[1].a[0] in ren:
+                st = X("aug", st.a[0], ren[st.a[1].a[0]], st.a[2], line=st.line)
+            out.append(st)
+        return out
+    return block(body)
+
+
+def name_inline_elements(body: list) -> list:
+    """`A[n1, L[k]]` -> `_e_L_k = L[k]` at the top of the loop over k and
+    `A[n1, _e_L_k]`: a list element used directly as a matrix index gets the
+    name the un-inlined spelling (`n3 = L[k]`) would have given it, so that the
+    role-based rules see the same bindings."""
+    def block(stmts, loopvars):
+        out = []
+        for st in stmts:
+            if st.k == "for" and st.a[0].k == "name":
+                v = st.a[0].a[0]
+                inner = block(st.a[2], loopvars | {v})
+                found = {}
+
+                def repl(e):
+                    if isinstance(e, X):
+                        if e.k == "index" and len(e.a[1]) >= 2:
+                            idx = []
+                            for i in e.a[1]:
+                                if i.k == "index" and i.a[0].k == "name" and \
+                                        len(i.a[1]) == 1 and i.a[1][0].k == "name" and \
+                                        i.a[1][0].a[0] == v:
+                                    nm = f"_e_{i.a[0].a[0]}_{v}"
+                                    found[nm] = i
+                                    idx.append(X("name", nm, line=i.line))
+                                else:
+                                    idx.append(repl(i))
+                            return X("index", repl(e.a[0]), idx, *e.a[2:], line=e.line)
+                        return X(e.k, *[repl(x) for x in e.a], line=e.line)
+                    if isinstance(e, list):
+                        return [repl(x) for x in e]
+                    if isinstance(e, tuple):
+                        return tuple(repl(x) for x in e)
+                    if isinstance(e, dict):
+                        return {k: repl(x) for k, x in e.items()}
+                    return e
+                inner = repl(inner)
+                binds = [X("assign", [X("name", nm)], src, line=st.line)
+                         for nm, src in sorted(found.items())]
+                st = X("for", st.a[0], st.a[1], binds + inner, *st.a[3:], line=st.line)
+            elif st.k == "while":
+                st = X("while", st.a[0], block(st.a[1], loopvars), *st.a[2:], line=st.line)
+            elif st.k == "if":
+                st = X("if", [(c, block(b, loopvars)) for c, b in st.a[0]],
+                       block(st.a[1], loopvars), line=st.line)
+            out.append(st)
+        return out
+    return block(body, frozenset())
